@@ -1,6 +1,7 @@
 package main
 
 import (
+	"github.com/spf13/viper"
 	"context"
 	"fmt"
 	"math/rand"
@@ -76,6 +77,9 @@ type c16Case struct {
 	Priors []string `json:"priors,omitempty"`
 	// CfgMap: per fan, a pwmMap given in the fan's configuration entry (no sweep, but the RPM curve is still measured)
 	CfgMap []bool `json:"cfgMap,omitempty"`
+	// OptionVia: how the user gave runFanInitializationInParallel - "" set directly by the harness, "yaml" in the
+	// configuration file, "env" as environment variable next to a configuration file named explicitly (-c)
+	OptionVia string `json:"optionVia,omitempty"`
 }
 
 func (c *c16Case) cfgMap(i int) bool { return i < len(c.CfgMap) && c.CfgMap[i] }
@@ -119,6 +123,36 @@ func runC16(ctx *Ctx, c *c16Case) (intervals []c16Interval, ok bool) {
 	d.Seq = 0
 	d.Mu.Unlock()
 	configuration.CurrentConfig.RunFanInitializationInParallel = c.Parallel
+	if c.OptionVia != "" {
+		// the option as the real loader delivers it
+		cdir := ctx.Path(uniqueId("c16cfg"))
+		_ = os.MkdirAll(cdir, 0755)
+		defer os.RemoveAll(cdir)
+		sf := filepath.Join(cdir, "sensor")
+		_ = os.WriteFile(sf, []byte("40000\n"), 0644)
+		text := fmt.Sprintf("dbPath: %s/fan2go.db\nsensors:\n  - id: s\n    file:\n      path: %s\ncurves:\n  - id: c\n    linear:\n      sensor: s\n      min: 40\n      max: 80\nfans:\n  - id: f\n    curve: c\n    file:\n      path: %s\n", cdir, sf, sf)
+		const envKey = "RUNFANINITIALIZATIONINPARALLEL"
+		_ = os.Unsetenv(envKey)
+		if c.OptionVia == "yaml" {
+			text += fmt.Sprintf("runFanInitializationInParallel: %v\n", c.Parallel)
+		} else {
+			_ = os.Setenv(envKey, fmt.Sprint(c.Parallel))
+			defer os.Unsetenv(envKey)
+		}
+		cfgPath := filepath.Join(cdir, "fan2go.yaml")
+		_ = os.WriteFile(cfgPath, []byte(text), 0644)
+		viper.Reset()
+		var lerr error
+		if p, msg := Guard(func() {
+			configuration.InitConfig(cfgPath)
+			if lerr = viper.ReadInConfig(); lerr == nil {
+				configuration.LoadConfig()
+			}
+		}); p || lerr != nil {
+			ctx.Inconclusive(fmt.Sprintf("C16: option via %s: configuration not loadable: %v %s", c.OptionVia, lerr, firstLine(msg)))
+			return nil, false
+		}
+	}
 	configuration.CurrentConfig.RpmPollingRate = 5 * time.Millisecond
 	configuration.CurrentConfig.TempSensorPollingRate = 5 * time.Millisecond
 	configuration.CurrentConfig.ControllerAdjustmentTickRate = 5 * time.Millisecond
@@ -305,6 +339,7 @@ func genC16(r *rand.Rand) *c16Case {
 		c.DelaysMs = append(c.DelaysMs, pick(r, 0, 0, 5, 20, 60, r.Intn(150)))
 		c.Kinds = append(c.Kinds, pick(r, "hwmon", "hwmon", "file"))
 	}
+	c.OptionVia = pick(r, "", "", "yaml", "env")
 	if r.Intn(4) == 0 {
 		// some hwmon fans carry a pwmMap in their configuration entry
 		for i := 0; i < n; i++ {
@@ -333,6 +368,9 @@ func init() {
 			ctx.Eval(1)
 			cnt, desc := c16Overlaps(iv)
 			class := fmt.Sprintf("fans=%d:viaRun=%v:fileFans=%d", len(c.Levels), c.ViaRun, strings.Count(strings.Join(c.Kinds, ","), "file"))
+			if c.OptionVia != "" {
+				class += ":option-via-" + c.OptionVia
+			}
 			if len(c.CfgMap) > 0 {
 				class += fmt.Sprintf(":configuredPwmMap=%d", strings.Count(fmt.Sprint(c.CfgMap), "true"))
 			}
